@@ -1291,6 +1291,9 @@ class DenseSquareMatrix(InvertibleMatrix, ExplicitArrayMatrix):
                 transpose.
         """
         super().__init__(array.shape, _array=array)
+        if lu_and_piv is not None:
+            for lu_or_piv in lu_and_piv:
+                lu_or_piv.flags.writeable = False
         self._lu_and_piv = lu_and_piv
         self._lu_transposed = lu_transposed
 
@@ -1354,8 +1357,9 @@ class InverseLUFactoredSquareMatrix(InvertibleMatrix, ImplicitArrayMatrix):
             inv_lu_transposed: Whether LU factorisation is of inverse of array or
                 transpose of inverse of array.
         """
-        super().__init__(inv_array.shape)
-        self._inv_array = inv_array
+        super().__init__(inv_array.shape, _inv_array=inv_array)
+        for inv_lu_or_piv in inv_lu_and_piv:
+            inv_lu_or_piv.flags.writeable = False
         self._inv_lu_and_piv = inv_lu_and_piv
         self._inv_lu_transposed = inv_lu_transposed
 
@@ -1436,6 +1440,8 @@ class DenseSymmetricMatrix(SymmetricMatrix, InvertibleMatrix, ExplicitArrayMatri
         if isinstance(eigvec, np.ndarray):
             eigvec = OrthogonalMatrix(eigvec)
         self._eigvec = eigvec
+        if isinstance(eigval, np.ndarray):
+            eigval.flags.writeable = False
         self._eigval = eigval
 
     def _scalar_multiply(self, scalar: ScalarLike) -> DenseSymmetricMatrix:
@@ -1558,6 +1564,8 @@ class EigendecomposedSymmetricMatrix(
             eigvec = OrthogonalMatrix(eigvec)
         super().__init__(eigvec.shape)
         self._eigvec = eigvec
+        if isinstance(eigval, np.ndarray):
+            eigval.flags.writeable = False
         self._eigval = eigval
         if not isinstance(eigval, np.ndarray) or eigval.size == 1:
             self.diag_eigval = ScaledIdentityMatrix(eigval)
